@@ -11,16 +11,19 @@ from vk import models as M
 ID = "C08"
 LEVEL = "exploration"
 RULE = (
-    "Hypothesis draws abstract region tables: 0..40 rows in arbitrary input order on chromosomes named with letters, digits, "
-    "underscores (and dots on a subset): plain or chr-prefixed 1..22, X, Y, M/MT plus alt/random/Un contigs; coordinates "
-    "0..3e8 incl. start 0, duplicate rows, gene labels over letters/digits/,.-_, a float column of arbitrary finite doubles "
-    "(subnormal, 1e+-300, integers stored as floats, > 6 significant digits), weight, depth, integer probes; 1..4 samples for "
-    "SEG. Read side: the harness renders the table in each format with its own writer following the published convention "
-    "(BED3/4/6, tab, interval list with @ header, chr:start-end text, GFF3/GTF, SEG, VCF sites/simple/full, Picard per-target) "
-    "and the reader must return the abstract 0-based half-open rows, sorted; read_auto must agree with the explicit reader. "
-    "Round trip: tab (.cnn/.cnr/.cns via cnvlib.read), bed3, bed4, interval, text and export seg -> parse_seg must return the "
-    "sorted table and a second write must be byte-identical. Non-trivial = unsorted input with two chromosomes whose lexical "
-    "and natural order differ, or a row with start 0, or a float needing more than 6 digits; distinct = distinct case JSON."
+    "Hypothesis draws abstract region tables: 0..40 rows in arbitrary input order on chromosomes named with "
+    "letters, digits, underscores (and dots on a subset): plain or chr-prefixed 1..22, X, Y, M/MT plus "
+    "alt/random/Un contigs; coordinates 0..3e8 and 2^31-5..2^32+1000 (VCF renderings skipped beyond 32 bits) "
+    "incl. start 0, duplicate rows, gene labels over letters/digits/,.-_, a float column of arbitrary finite "
+    "doubles (subnormal, 1e+-300, integers stored as floats, > 6 significant digits), weight, depth, integer "
+    "probes; 1..4 samples for SEG. Read side: the harness renders the table in each format with its own writer "
+    "following the published convention (BED3/4/6, tab, interval list with @ header, chr:start-end text, "
+    "GFF3/GTF, SEG, VCF sites/simple/full, Picard per-target) and the reader must return the abstract 0-based "
+    "half-open rows, sorted; read_auto must agree with the explicit reader. Round trip: tab (.cnn/.cnr/.cns via "
+    "cnvlib.read), bed3, bed4, interval, text and export seg -> parse_seg must return the sorted table and a "
+    "second write must be byte-identical. Non-trivial = unsorted input with two chromosomes whose lexical and "
+    "natural order differ, or a row with start 0, or a float needing more than 6 digits; distinct = distinct case "
+    "JSON."
 )
 QUICK = {"examples": 960, "shards": 16, "budget_s": 400}
 THOROUGH = {"examples": 9600, "shards": 16, "budget_s": 3000}
